@@ -101,6 +101,11 @@ Section Phases.
   Variable obj : list (pstr * lval).
   Variable clo : list (name * lval).
   Variable m : cmeta.
+  (* the meaning of a compiled condition in this environment *)
+  Variable csem : cond -> lval -> res bool.
+  Hypothesis Hsem : forall c var f v fr,
+    lookup_str obj f = Some v -> clo_has clo c var ->
+    eval_test (Env obj clo fr) (fst (compile_cond c var f)) = csem c v.
 
   Lemma exec_false : forall fs i st,
     exists st', exec_block obj clo (gen_false i fs) st = Ok st' /\
@@ -171,7 +176,7 @@ Section Phases.
   Fixpoint pass1_from (se : bool) (bs : list bool) (fs : list fdesc) : res (list bool) :=
     match fs, bs with
     | f :: r, b :: bs' =>
-        match (if b then Ok true else omit_default evaluate m se f) with
+        match (if b then Ok true else omit_default csem m se f) with
         | Ok b' => match pass1_from se bs' r with Ok o => Ok (b' :: o) | Err er => Err er end
         | Err er => Err er
         end
@@ -179,7 +184,7 @@ Section Phases.
     end.
 
   Lemma pass1_from_ref : forall E se fs,
-    pass1_from se (map (excluded E) fs) fs = ref_pass1 evaluate m E se fs.
+    pass1_from se (map (excluded E) fs) fs = ref_pass1 csem m E se fs.
   Proof.
     intros E se. induction fs as [|f r IH]; [reflexivity|].
     cbn [map pass1_from ref_pass1]. rewrite IH. reflexivity.
@@ -200,20 +205,19 @@ Section Phases.
   Lemma sdi_gsc_true : forall c, m_skip_defaults_if m = Some c -> gsc_true (fst (meta_sdi_gsc m)) = true.
   Proof.
     intros c H. unfold meta_sdi_gsc, get_skip_if_condition. rewrite H.
-    destruct (t_or_f (c_op c)); [reflexivity|]. destruct (is_builtin (val (c_val c))); reflexivity.
+    destruct (t_or_f (c_op c)); [reflexivity|]. destruct (inlined (c_op c) (val (c_val c))); reflexivity.
   Qed.
 
   Lemma skip_gsc_true : forall c, m_skip_if m = Some c -> gsc_true (fst (meta_skip_gsc m)) = true.
   Proof.
     intros c H. unfold meta_skip_gsc, get_skip_if_condition. rewrite H.
-    destruct (t_or_f (c_op c)); [reflexivity|]. destruct (is_builtin (val (c_val c))); reflexivity.
+    destruct (t_or_f (c_op c)); [reflexivity|]. destruct (inlined (c_op c) (val (c_val c))); reflexivity.
   Qed.
 
   Lemma exec_dflt : forall fs i bs st,
     List.length bs = List.length fs ->
     flags_at (s_frame st) i bs ->
     obj_ok fs -> clo_ok i fs ->
-    ocond_safe (m_skip_defaults_if m) = true ->
     oclo_has (m_skip_defaults_if m) NSkipDefaultsValue ->
     match pass1_from true bs fs with
     | Err er => exec_block obj clo (gen_dflt m i fs) st = Err er
@@ -222,7 +226,7 @@ Section Phases.
                             frame_ext i (s_frame st) (s_frame st') /\ s_out st' = s_out st
     end.
   Proof.
-    induction fs as [|f r IH]; intros i bs st Hl Hf Hobj Hclo Hsafe Hmclo.
+    induction fs as [|f r IH]; intros i bs st Hl Hf Hobj Hclo Hmclo.
     - destruct bs; [|discriminate Hl]. cbn [pass1_from gen_dflt exec_block].
       exists st. repeat split; try apply frame_ext_refl.
     - destruct bs as [|b bs']; [discriminate Hl|].
@@ -242,7 +246,7 @@ Section Phases.
           { apply (flags_at_ext bs' (i + 1) (s_frame st)); [|exact Hfr].
             intros j Hj. cbn [lookup_name]. rewrite name_eqb_neq; [reflexivity|].
             intro E; inversion E; lia. }
-          specialize (IH Hfr' Hor Hcr Hsafe Hmclo).
+          specialize (IH Hfr' Hor Hcr Hmclo).
           destruct (pass1_from true bs' r) as [o|er]; [|exact IH].
           destruct IH as [st' [He [Hf' [Hext Ho]]]].
           exists st'. split; [exact He|]. split; [|split].
@@ -257,7 +261,7 @@ Section Phases.
           set (test := if gsc_true (fst (meta_sdi_gsc m)) then _ else _).
           assert (Htest : eval_test (Env obj clo fr) test =
                           match m_skip_defaults_if m with
-                          | Some c => evaluate c (f_value f)
+                          | Some c => csem c (f_value f)
                           | None => Ok (py_eq (val (f_value f)) (val d))
                           end).
           { subst test. destruct (m_skip_defaults_if m) as [c|] eqn:Hsdi.
@@ -265,7 +269,7 @@ Section Phases.
               unfold meta_sdi_gsc. rewrite Hsdi.
               change (finalize_skip_if c (EField (f_name f)) (fst (get_skip_if_condition (Some c) NSkipDefaultsValue)))
                 with (fst (compile_cond c NSkipDefaultsValue (f_name f))).
-              apply compile_cond_correct; [exact Hsafe|exact Hof|apply Hmclo; reflexivity].
+              apply Hsem; [exact Hof|apply Hmclo; reflexivity].
             - unfold meta_sdi_gsc. rewrite Hsdi. cbn [get_skip_if_condition fst gsc_true].
               unfold eval_test. cbn [eval e_obj e_clo]. rewrite Hof, (Hcd d eq_refl eq_refl).
               reflexivity. }
@@ -278,7 +282,7 @@ Section Phases.
              { apply (flags_at_ext bs' (i + 1) fr); [|exact Hfr].
                intros j Hj. cbn [lookup_name]. rewrite name_eqb_neq; [reflexivity|].
                intro E; inversion E; lia. }
-             specialize (IH Hfr' Hor Hcr Hsafe Hmclo).
+             specialize (IH Hfr' Hor Hcr Hmclo).
              destruct (pass1_from true bs' r) as [o|er]; [|exact IH].
              destruct IH as [st' [He [Hf' [Hext Ho]]]].
              exists st'. split; [exact He|]. split; [|split].
@@ -290,7 +294,7 @@ Section Phases.
              ++ exact Ho.
           -- rewrite Htest. reflexivity.
       + (* no default: nothing is generated, the flag is unchanged *)
-        specialize (IH (i + 1) bs' st Hl' Hfr Hor Hcr Hsafe Hmclo).
+        specialize (IH (i + 1) bs' st Hl' Hfr Hor Hcr Hmclo).
         assert (Hb : forall b0 : bool, (if b0 then Ok true else Ok false) = Ok b0 :> res bool)
           by (intros []; reflexivity).
         rewrite Hb.
@@ -309,16 +313,14 @@ Section Phases.
     List.length bs = List.length fs ->
     flags_at (s_frame st) i bs ->
     obj_ok fs -> clo_ok i fs ->
-    ocond_safe (m_skip_if m) = true ->
     oclo_has (m_skip_if m) NSkipValue ->
-    forallb (fun f => ocond_safe (f_cond f)) fs = true ->
     exec_block obj clo (gen_body m i fs) st =
-    match ref_pass2 evaluate m fs bs with
+    match ref_pass2 csem m fs bs with
     | Ok ks => Ok (St (s_frame st) (s_out st ++ ks))
     | Err er => Err er
     end.
   Proof.
-    induction fs as [|f r IH]; intros i bs st Hl Hf Hobj Hclo Hsafe Hmclo Hfs.
+    induction fs as [|f r IH]; intros i bs st Hl Hf Hobj Hclo Hmclo.
     - destruct bs; [|discriminate Hl]. cbn [ref_pass2 gen_body exec_block].
       rewrite app_nil_r. destruct st; reflexivity.
     - destruct bs as [|b bs']; [discriminate Hl|].
@@ -326,7 +328,6 @@ Section Phases.
       cbn [flags_at] in Hf. destruct Hf as [[x [Hx Hxt]] Hfr].
       inversion Hobj as [|? ? Hof Hor]; subst.
       cbn [clo_ok] in Hclo. destruct Hclo as [_ [Hcc Hcr]].
-      cbn [forallb] in Hfs. apply andb_true_iff in Hfs. destruct Hfs as [Hfc Hfr'].
       cbn [ref_pass2 gen_body].
       destruct (f_key f) as [key|] eqn:Hk.
       + cbn [exec_block]. rewrite exec_if.
@@ -334,7 +335,7 @@ Section Phases.
         set (guard := match f_cond f with Some _ => _ | None => _ end).
         (* the guard: not (_skip_i or test) *)
         assert (Hguard :
-          match (if truthy (val x) then Ok true else omit_cond evaluate m f) with
+          match (if truthy (val x) then Ok true else omit_cond csem m f) with
           | Ok o => exists y, eval (Env obj clo fr) guard = Ok y /\ truthy (val y) = negb o
           | Err er => eval (Env obj clo fr) guard = Err er
           end).
@@ -344,8 +345,8 @@ Section Phases.
             destruct (truthy (val x)) eqn:Ht.
             + exists (fresh (VBool (negb (truthy (val x))))). split; [reflexivity|].
               cbn [val fresh truthy]. rewrite Ht. reflexivity.
-            + assert (Htest := compile_cond_correct c (NSkipIf i) (f_name f) (f_value f) obj clo fr
-                                 Hfc Hof (Hcc key c eq_refl eq_refl)).
+            + assert (Htest := Hsem c (NSkipIf i) (f_name f) (f_value f) fr
+                                 Hof (Hcc key c eq_refl eq_refl)).
               apply eval_test_inv in Htest.
               destruct (eval (Env obj clo fr) (fst (compile_cond c (NSkipIf i) (f_name f)))) as [y|er0].
               * rewrite Htest. exists (fresh (VBool (negb (truthy (val y))))). split; reflexivity.
@@ -358,8 +359,8 @@ Section Phases.
               destruct (truthy (val x)) eqn:Ht.
               * exists (fresh (VBool (negb (truthy (val x))))). split; [reflexivity|].
                 cbn [val fresh truthy]. rewrite Ht. reflexivity.
-              * assert (Htest := compile_cond_correct c NSkipValue (f_name f) (f_value f) obj clo fr
-                                   Hsafe Hof (Hmclo c eq_refl)).
+              * assert (Htest := Hsem c NSkipValue (f_name f) (f_value f) fr
+                                   Hof (Hmclo c eq_refl)).
                 apply eval_test_inv in Htest.
                 destruct (eval (Env obj clo fr) (fst (compile_cond c NSkipValue (f_name f)))) as [y|er0].
                 -- rewrite Htest. exists (fresh (VBool (negb (truthy (val y))))). split; reflexivity.
@@ -367,18 +368,18 @@ Section Phases.
             + unfold meta_skip_gsc. rewrite Hms. cbn [get_skip_if_condition fst gsc_true].
               cbn [eval e_frame]. rewrite Hx.
               destruct (truthy (val x)); eexists; split; reflexivity. }
-        destruct (if truthy (val x) then Ok true else omit_cond evaluate m f) as [o|er].
+        destruct (if truthy (val x) then Ok true else omit_cond csem m f) as [o|er].
         * destruct Hguard as [y [Hy Hyt]]. rewrite Hy, Hyt.
           destruct o; cbn [negb exec_block exec_stmt].
-          -- rewrite (IH (i + 1) bs' st Hl' Hfr Hor Hcr Hsafe Hmclo Hfr').
-             destruct (ref_pass2 evaluate m r bs'); reflexivity.
-          -- rewrite (IH (i + 1) bs' (St (s_frame st) (s_out st ++ [(key, f_name f)])) Hl' Hfr Hor Hcr Hsafe Hmclo Hfr').
+          -- rewrite (IH (i + 1) bs' st Hl' Hfr Hor Hcr Hmclo).
+             destruct (ref_pass2 csem m r bs'); reflexivity.
+          -- rewrite (IH (i + 1) bs' (St (s_frame st) (s_out st ++ [(key, f_name f)])) Hl' Hfr Hor Hcr Hmclo).
              cbn [s_frame s_out].
-             destruct (ref_pass2 evaluate m r bs') as [ks|er]; [|reflexivity].
+             destruct (ref_pass2 csem m r bs') as [ks|er]; [|reflexivity].
              rewrite <- app_assoc. reflexivity.
         * rewrite Hguard. reflexivity.
       + (* dump=False: nothing generated *)
-        apply (IH (i + 1) bs' st Hl' Hfr Hor Hcr Hsafe Hmclo Hfr').
+        apply (IH (i + 1) bs' st Hl' Hfr Hor Hcr Hmclo).
   Qed.
 End Phases.
 
@@ -485,7 +486,7 @@ Proof.
   destruct (f_default f) as [d|]; [destruct (gsc_true (fst (meta_sdi_gsc m)))|];
     (destruct (f_key f); [destruct (f_cond f) as [c|]|]);
     try (unfold compile_cond, get_skip_if_condition; cbn [snd];
-         destruct (t_or_f (c_op c)); [|destruct (is_builtin (val (c_val c)))]);
+         destruct (t_or_f (c_op c)); [|destruct (inlined (c_op c) (val (c_val c)))]);
     cbn [snd lookup_name name_eqb]; rewrite ?Hn; split; reflexivity.
 Qed.
 
@@ -537,8 +538,8 @@ Lemma meta_clo_no_idx : forall m, no_idx_ge 0 (snd (meta_skip_gsc m) ++ snd (met
 Proof.
   intros m j _. rewrite !lookup_name_app.
   unfold meta_skip_gsc, meta_sdi_gsc, get_skip_if_condition.
-  destruct (m_skip_if m) as [c1|]; [destruct (t_or_f (c_op c1)); [|destruct (is_builtin (val (c_val c1)))]|];
-    (destruct (m_skip_defaults_if m) as [c2|]; [destruct (t_or_f (c_op c2)); [|destruct (is_builtin (val (c_val c2)))]|]);
+  destruct (m_skip_if m) as [c1|]; [destruct (t_or_f (c_op c1)); [|destruct (inlined (c_op c1) (val (c_val c1)))]|];
+    (destruct (m_skip_defaults_if m) as [c2|]; [destruct (t_or_f (c_op c2)); [|destruct (inlined (c_op c2) (val (c_val c2)))]|]);
     cbn [snd lookup_name name_eqb]; split; reflexivity.
 Qed.
 
@@ -554,7 +555,7 @@ Proof.
   intros m fs c Hc Htf Hb. unfold gen_closure. rewrite !lookup_name_app.
   assert (H1 : lookup_name (snd (meta_skip_gsc m)) NSkipDefaultsValue = None).
   { unfold meta_skip_gsc, get_skip_if_condition.
-    destruct (m_skip_if m) as [c1|]; [destruct (t_or_f (c_op c1)); [|destruct (is_builtin (val (c_val c1)))]|];
+    destruct (m_skip_if m) as [c1|]; [destruct (t_or_f (c_op c1)); [|destruct (inlined (c_op c1) (val (c_val c1)))]|];
       reflexivity. }
   rewrite H1. unfold meta_sdi_gsc, get_skip_if_condition. rewrite Hc, Htf, Hb.
   cbn [snd lookup_name name_eqb]. reflexivity.
@@ -567,25 +568,27 @@ Proof. intros. apply map_length. Qed.
 Lemma map_excluded_none : forall fs, map (fun _ : fdesc => false) fs = map (excluded None) fs.
 Proof. intros. reflexivity. Qed.
 
-Lemma pass1_length : forall m se fs bs o,
-  List.length bs = List.length fs -> pass1_from m se bs fs = Ok o -> List.length o = List.length fs.
+Lemma pass1_length : forall m csem se fs bs o,
+  List.length bs = List.length fs -> pass1_from m csem se bs fs = Ok o -> List.length o = List.length fs.
 Proof.
-  intros m se. induction fs as [|f r IH]; intros bs o Hl H.
+  intros m csem se. induction fs as [|f r IH]; intros bs o Hl H.
   - destruct bs; cbn [pass1_from] in H; inversion H; reflexivity.
   - destruct bs as [|b bs']; [discriminate Hl|]. cbn [pass1_from] in H.
-    destruct (if b then Ok true else omit_default evaluate m se f) as [b'|]; [|discriminate H].
-    destruct (pass1_from m se bs' r) as [o'|] eqn:Ho; [|discriminate H].
+    destruct (if b then Ok true else omit_default csem m se f) as [b'|]; [|discriminate H].
+    destruct (pass1_from m csem se bs' r) as [o'|] eqn:Ho; [|discriminate H].
     inversion H; subst. cbn [List.length]. f_equal. apply (IH bs' o'); [cbn in Hl; lia|exact Ho].
 Qed.
 
-Lemma cls_asdict_correct : forall m fs E s,
-  NoDup (map f_name fs) -> cls_safe m fs = true ->
-  cls_asdict m fs E s = ref_select evaluate m fs E s.
+(* The bookkeeping is right for EVERY class: whatever the compiled conditions mean
+   (text_sem), the generated program selects with them exactly as the reference does. *)
+Lemma cls_asdict_generated : forall m fs E s,
+  NoDup (map f_name fs) ->
+  cls_asdict m fs E s =
+  if prog_bad (gen_prog m fs) then Err SyntaxError else ref_select text_sem m fs E s.
 Proof.
-  intros m fs E s Hnd Hsafe. unfold cls_asdict. rewrite (gen_prog_ok m fs Hsafe).
-  unfold cls_safe in Hsafe.
-  apply andb_true_iff in Hsafe. destruct Hsafe as [Hs Hfs]. apply andb_true_iff in Hs. destruct Hs as [Hsi Hsd].
-  unfold ref_select. rewrite <- (pass1_from_ref m E).
+  intros m fs E s Hnd. unfold cls_asdict.
+  destruct (prog_bad (gen_prog m fs)); [reflexivity|].
+  unfold ref_select. rewrite <- (pass1_from_ref m text_sem E).
   destruct fs as [|f0 r0] eqn:Hfs0; [reflexivity|]. rewrite <- Hfs0 in *.
   assert (Hprog : gen_prog m fs =
                   SIf (ECmp OpIs (ELocal NExclude) (EConst VNone)) (gen_false 0 fs) (gen_excl 0 fs) ::
@@ -599,6 +602,10 @@ Proof.
   assert (Hclo : clo_ok clo m 0 fs).
   { unfold clo, gen_closure. rewrite app_assoc. apply clo_ok_gen. apply meta_clo_no_idx. }
   pose proof (meta_clo_skip m fs) as Hmc1. pose proof (meta_clo_sdi m fs) as Hmc2. fold clo in Hmc1, Hmc2.
+  assert (Hsem : forall c var f v fr,
+             lookup_str obj f = Some v -> clo_has clo c var ->
+             eval_test (Env obj clo fr) (fst (compile_cond c var f)) = text_sem c v).
+  { intros. apply compile_cond_text_sem; assumption. }
   (* phase 1 *)
   cbn [exec_block]. rewrite exec_if.
   assert (H1 : exists st1,
@@ -622,7 +629,7 @@ Proof.
   assert (Harg : lookup_name (s_frame st1) NSkipDefaultsArg = Some (LV None (VBool se))).
   { rewrite (Hx1 NSkipDefaultsArg) by (intros j _ E0; discriminate E0). reflexivity. }
   assert (H2 :
-    match pass1_from m se (map (excluded E) fs) fs with
+    match pass1_from m text_sem se (map (excluded E) fs) fs with
     | Err er => exec_block obj clo
                   (match gen_dflt m 0 fs with [] => [] | d => [SIf (ELocal NSkipDefaultsArg) d []] end) st1 = Err er
     | Ok bs' => exists st2,
@@ -631,30 +638,108 @@ Proof.
         flags_at (s_frame st2) 0 bs' /\ s_out st2 = []
     end).
   { destruct se eqn:Hse.
-    - pose proof (exec_dflt obj clo m fs 0 (map (excluded E) fs) st1
-                    (length_map_excluded E fs) Hf1 Hobj Hclo Hsd Hmc2) as Hd.
+    - pose proof (exec_dflt obj clo m text_sem Hsem fs 0 (map (excluded E) fs) st1
+                    (length_map_excluded E fs) Hf1 Hobj Hclo Hmc2) as Hd.
       destruct (gen_dflt m 0 fs) as [|d0 dl] eqn:Hg.
-      + destruct (pass1_from m true (map (excluded E) fs) fs) as [bs'|er]; [|exact Hd].
+      + destruct (pass1_from m text_sem true (map (excluded E) fs) fs) as [bs'|er]; [|exact Hd].
         destruct Hd as [st2 [He [Hf [_ Ho]]]]. exists st2. split; [exact He|]. split; [exact Hf|].
         rewrite Ho. exact Ho1.
       + cbn [exec_block]. rewrite exec_if. cbn [eval e_frame]. rewrite Harg. cbn [val truthy].
-        destruct (pass1_from m true (map (excluded E) fs) fs) as [bs'|er].
+        destruct (pass1_from m text_sem true (map (excluded E) fs) fs) as [bs'|er].
         * destruct Hd as [st2 [He [Hf [_ Ho]]]]. exists st2. rewrite He. split; [reflexivity|].
           split; [exact Hf|]. rewrite Ho. exact Ho1.
         * rewrite Hd. reflexivity.
-    - rewrite (pass1_from_off m fs _ (length_map_excluded E fs)).
+    - rewrite (pass1_from_off m text_sem fs _ (length_map_excluded E fs)).
       exists st1. split; [|split; [exact Hf1|exact Ho1]].
       destruct (gen_dflt m 0 fs) as [|d0 dl]; [reflexivity|].
       cbn [exec_block]. rewrite exec_if. cbn [eval e_frame]. rewrite Harg. reflexivity. }
-  destruct (pass1_from m se (map (excluded E) fs) fs) as [bs'|er] eqn:Hp1.
+  destruct (pass1_from m text_sem se (map (excluded E) fs) fs) as [bs'|er] eqn:Hp1.
   - destruct H2 as [st2 [He2 [Hf2 Ho2]]]. rewrite He2.
     (* phase 3 *)
-    rewrite (exec_body obj clo m fs 0 bs' st2
-               (pass1_length m se fs _ bs' (length_map_excluded E fs) Hp1) Hf2 Hobj Hclo Hsi Hmc1 Hfs).
+    rewrite (exec_body obj clo m text_sem Hsem fs 0 bs' st2
+               (pass1_length m text_sem se fs _ bs' (length_map_excluded E fs) Hp1) Hf2 Hobj Hclo Hmc1).
     rewrite Ho2. cbn [app].
-    destruct (ref_pass2 evaluate m fs bs'); reflexivity.
+    destruct (ref_pass2 text_sem m fs bs'); reflexivity.
   - rewrite H2. reflexivity.
 Qed.
+
+(* ------------------------------------------------ the reference only consults the class's conditions *)
+Definition cls_conds_agree (c1 c2 : cond -> lval -> res bool) (m : cmeta) (fs : list fdesc) : Prop :=
+  (forall c v, m_skip_if m = Some c -> c1 c v = c2 c v) /\
+  (forall c v, m_skip_defaults_if m = Some c -> c1 c v = c2 c v) /\
+  (forall f c v, In f fs -> f_cond f = Some c -> c1 c v = c2 c v).
+
+Lemma ref_pass1_ext : forall c1 c2 m E se fs,
+  (forall c v, m_skip_defaults_if m = Some c -> c1 c v = c2 c v) ->
+  ref_pass1 c1 m E se fs = ref_pass1 c2 m E se fs.
+Proof.
+  intros c1 c2 m E se fs H. induction fs as [|f r IH]; [reflexivity|].
+  cbn [ref_pass1]. rewrite IH.
+  assert (Ho : omit_default c1 m se f = omit_default c2 m se f).
+  { unfold omit_default. destruct se; [|reflexivity]. destruct (f_default f); [|reflexivity].
+    destruct (m_skip_defaults_if m) as [c|] eqn:Hc; [|reflexivity]. apply H. reflexivity. }
+  rewrite Ho. reflexivity.
+Qed.
+
+Lemma ref_pass2_ext : forall c1 c2 m fs bs,
+  (forall c v, m_skip_if m = Some c -> c1 c v = c2 c v) ->
+  (forall f c v, In f fs -> f_cond f = Some c -> c1 c v = c2 c v) ->
+  ref_pass2 c1 m fs bs = ref_pass2 c2 m fs bs.
+Proof.
+  intros c1 c2 m fs. induction fs as [|f r IH]; intros bs Hm Hf; [reflexivity|].
+  destruct bs as [|b bs']; [reflexivity|]. cbn [ref_pass2].
+  rewrite (IH bs' Hm) by (intros g c v Hg; apply Hf; right; exact Hg).
+  assert (Ho : omit_cond c1 m f = omit_cond c2 m f).
+  { unfold omit_cond, field_cond. destruct (f_cond f) as [c|] eqn:Hc.
+    - apply (Hf f c); [left; reflexivity|exact Hc].
+    - destruct (m_skip_if m) as [c|] eqn:Hc'; [|reflexivity]. apply Hm. reflexivity. }
+  rewrite Ho. reflexivity.
+Qed.
+
+Lemma ref_select_ext : forall c1 c2 m fs E s,
+  cls_conds_agree c1 c2 m fs -> ref_select c1 m fs E s = ref_select c2 m fs E s.
+Proof.
+  intros c1 c2 m fs E s [H1 [H2 H3]]. unfold ref_select.
+  rewrite (ref_pass1_ext c1 c2 m E _ fs H2).
+  destruct (ref_pass1 c2 m E (eff_skip_defaults m s) fs); [|reflexivity].
+  apply ref_pass2_ext; assumption.
+Qed.
+
+Lemma safe_conds_agree : forall m fs, cls_safe m fs = true -> cls_conds_agree text_sem evaluate m fs.
+Proof.
+  intros m fs Hs. unfold cls_safe in Hs.
+  apply andb_true_iff in Hs. destruct Hs as [Hs Hfs]. apply andb_true_iff in Hs. destruct Hs as [Hsi Hsd].
+  split; [|split].
+  - intros c v Hc. rewrite Hc in Hsi. apply text_sem_correct. exact Hsi.
+  - intros c v Hc. rewrite Hc in Hsd. apply text_sem_correct. exact Hsd.
+  - intros f c v Hin Hc. rewrite forallb_forall in Hfs. specialize (Hfs f Hin). rewrite Hc in Hfs.
+    apply text_sem_correct. exact Hfs.
+Qed.
+
+Lemma cls_asdict_correct : forall m fs E s,
+  NoDup (map f_name fs) -> cls_safe m fs = true ->
+  cls_asdict m fs E s = ref_select evaluate m fs E s.
+Proof.
+  intros m fs E s Hnd Hsafe.
+  rewrite (cls_asdict_generated m fs E s Hnd), (gen_prog_ok m fs Hsafe).
+  apply ref_select_ext. apply safe_conds_agree. exact Hsafe.
+Qed.
+
+
+Lemma cls_safe_all : forall m fs, cls_safe m fs = true.
+Proof.
+  intros m fs. unfold cls_safe.
+  assert (Ho : forall c, ocond_safe c = true) by (intros [c|]; [apply cond_safe_all|reflexivity]).
+  rewrite !Ho. cbn [andb]. apply forallb_forall. intros f _. apply Ho.
+Qed.
+
+(* the generated function always compiles, and selects with Condition.evaluate *)
+Lemma gen_prog_never_bad : forall m fs, prog_bad (gen_prog m fs) = false.
+Proof. intros m fs. apply gen_prog_ok. apply cls_safe_all. Qed.
+
+Lemma cls_asdict_evaluate : forall m fs E s,
+  NoDup (map f_name fs) -> cls_asdict m fs E s = ref_select evaluate m fs E s.
+Proof. intros m fs E s Hnd. apply cls_asdict_correct; [exact Hnd|apply cls_safe_all]. Qed.
 
 (* ------------------------------------------------ reading the reference as a set difference *)
 (* When no evaluated condition raises, a (key, field) pair is emitted iff the
